@@ -44,6 +44,26 @@ pub fn record(seed: u64, tier: &str, out: &str) {
             }
         }
     }
+    // the factorisation consumed through the other entry points of the Iterator trait (last / count / nth / skip / step_by)
+    {
+        let s = Sieve::new(max_n);
+        let rows: Result<Vec<Value>, String> = catch(|| (1..=max_n as i32).map(|x| {
+            let pc = |o: Option<(i32, i32)>| -> Value { match o { None => json!([]), Some((p, c)) => json!([[p, c]]) } };
+            let mut it = s.factorize(x);
+            it.next();
+            let after_one_nth1 = pc(it.nth(1));
+            json!([x, fact(&s, x), pc(s.factorize(x).last()), s.factorize(x).count(), pc(s.factorize(x).nth(1)), after_one_nth1,
+                   s.factorize(x).skip(1).map(|(p, c)| json!([p, c])).collect::<Vec<_>>(), s.factorize(x).step_by(2).map(|(p, c)| json!([p, c])).collect::<Vec<_>>()])
+        }).collect());
+        match rows {
+            Ok(rows) => {
+                for ch in rows.chunks(500) {
+                    t.ev(json!({"ev": "factit", "N": max_n, "rows": ch}));
+                }
+            }
+            Err(p) => t.ev(json!({"ev": "factit", "N": max_n, "panic": p})),
+        }
+    }
     // limits between the exhaustive range and the large ones, at a fixed stride (every position class of N relative
     // to bounds that are only asymptotically valid shows up somewhere): sampled entries, the end of the prime list
     let stride = if thorough { 7 } else { 61 };
